@@ -1,12 +1,331 @@
-(* C07 — German account numbers are judged by the Bundesbank method of their bank.  (in progress) *)
-From Schwifty Require Import Lib.Base Lib.Lit Model.Clean Model.Data Model.Bban Model.Germany.
-From Schwifty Require Import Gen.GermanyTbl.
+(* C07 — German account numbers are judged by the Bundesbank method of their bank. *)
+From Coq Require Import Lia ZArith List Bool.
+From Schwifty Require Import Lib.Base Lib.Lit Model.Clean Model.Data Model.Bban Model.National Model.Algorithms Model.Germany.
+From Schwifty Require Import Spec.NationalPublished Spec.Bundesbank.
+From Schwifty Require Import Proofs.NationalFacts Proofs.NationalDigits Proofs.GermanFacts.
+From Schwifty Require Import Gen.Env Gen.IbanCfg Gen.ChecksumCfg Gen.GermanyTbl.
 From Coq Require Import String.
+Import ListNotations.
+Open Scope list_scope.
 
-(* the verdict of a method depends on nothing but the method's resolved class and the account number:
-   the model is a function of exactly these (no registry, no bank code, no history) *)
+Definition the_german := german_class nd_runs german_table account_code_length.
+Definition the_algos := the_find_algo the_env the_iban_cfg nd_runs registered the_german.
+
+Lemma C07_nd_obl : nd_ok nd_runs = true.
+Proof. vm_cast_no_check (eq_refl true). Qed.
+Lemma C07_len_obl : account_code_length = 10%Z.
+Proof. vm_cast_no_check (eq_refl 10%Z). Qed.
+
+(* the class the registry resolves a method code to (the translator resolved its MRO into one table row) *)
+Definition method_class (code : string) : option gclass :=
+  match assoc (tx "DE" ++ [58%N] ++ s2t code) registered with
+  | Some (cls, acc) =>
+    match national_class the_env nd_runs (ic_alphabet the_iban_cfg) cls acc with
+    | Some _ => None
+    | None => assoc cls german_table
+    end
+  | None => None
+  end.
+
+Lemma method_algo code g :
+  method_class code = Some g ->
+  exists acc, the_algos (tx "DE") (s2t code) = Some (german_algo nd_runs german_table account_code_length g acc).
+Proof.
+  unfold method_class, the_algos, the_find_algo, find_algo. intro H.
+  destruct (assoc (tx "DE" ++ [58%N] ++ s2t code) registered) as [[cls acc]|]; [|discriminate].
+  destruct (national_class the_env nd_runs (ic_alphabet the_iban_cfg) cls acc); [discriminate|].
+  exists acc. unfold the_german, german_class. rewrite H. reflexivity.
+Qed.
+
+(* the verdict depends on nothing but the method's resolved class and the account number *)
 Theorem C07_only_account : forall nd tbl acl g a1 a2,
   a1 = a2 -> validate1 nd tbl acl g a1 = validate1 nd tbl acl g a2.
 Proof. intros; subst; reflexivity. Qed.
 
+(* ---- the methods that use the WeightedModulus template as it stands ---------------------------------------- *)
+Definition std_methods : list (string * (nat * nat * nat) * cross * result * list Z * Z) :=
+  [("00", (1%nat, 9%nat, 10%nat), CrossSum, Minus10, w21, 10);
+   ("01", (1%nat, 9%nat, 10%nat), Plain, Minus10, [3; 7; 1; 3; 7; 1; 3; 7; 1], 10);
+   ("02", (1%nat, 9%nat, 10%nat), Plain, Minus11_02, [2; 3; 4; 5; 6; 7; 8; 9; 2], 11);
+   ("03", (1%nat, 9%nat, 10%nat), Plain, Minus10, w21, 10);
+   ("04", (1%nat, 9%nat, 10%nat), Plain, Minus11_02, w_2to7, 11);
+   ("05", (1%nat, 9%nat, 10%nat), Plain, Minus10, [7; 3; 1; 7; 3; 1; 7; 3; 1], 10);
+   ("06", (1%nat, 9%nat, 10%nat), Plain, Minus11_06, w_2to7, 11);
+   ("07", (1%nat, 9%nat, 10%nat), Plain, Minus11_02, w_2to10, 11);
+   ("10", (1%nat, 9%nat, 10%nat), Plain, Minus11_06, w_2to10, 11);
+   ("11", (1%nat, 9%nat, 10%nat), Plain, Minus11_11, w_2to10, 11);
+   ("13", (2%nat, 7%nat, 8%nat), CrossSum, Minus10, w21, 10);
+   ("14", (4%nat, 9%nat, 10%nat), Plain, Minus11_02, w_2to7, 11);
+   ("15", (6%nat, 9%nat, 10%nat), Plain, Minus11_06, [2; 3; 4; 5], 11);
+   ("18", (1%nat, 9%nat, 10%nat), Plain, Minus10, [3; 9; 7; 1; 3; 9; 7; 1; 3], 10);
+   ("19", (1%nat, 9%nat, 10%nat), Plain, Minus11_06, [2; 3; 4; 5; 6; 7; 8; 9; 1], 11);
+   ("20", (1%nat, 9%nat, 10%nat), Plain, Minus11_06, [2; 3; 4; 5; 6; 7; 8; 9; 3], 11);
+   ("22", (1%nat, 9%nat, 10%nat), UnitsOnly, Minus10, [3; 1; 3; 1; 3; 1; 3; 1; 3], 10);
+   ("28", (1%nat, 7%nat, 8%nat), Plain, Minus11_06, [2; 3; 4; 5; 6; 7; 8], 11);
+   ("32", (4%nat, 9%nat, 10%nat), Plain, Minus11_06, w_2to7, 11);
+   ("33", (5%nat, 9%nat, 10%nat), Plain, Minus11_06, [2; 3; 4; 5; 6], 11);
+   ("34", (1%nat, 7%nat, 8%nat), Plain, Minus11_06, [2; 4; 8; 5; 10; 9; 7], 11);
+   ("38", (4%nat, 9%nat, 10%nat), Plain, Minus11_06, [2; 4; 8; 5; 10; 9], 11);
+   ("60", (3%nat, 9%nat, 10%nat), CrossSum, Minus10, w21, 10)]%Z%string.
+
+Definition is_vdefault (g : gclass) : bool := match g_validate g with VDefault => true | _ => false end.
+
+(* obligation on the regenerated class table: each of these codes resolves to a class whose attributes are the
+   Bundesbank parameters and which overrides no hook *)
+Definition std_entry_ok (en : string * (nat * nat * nat) * cross * result * list Z * Z) : bool :=
+  let '(code, (a, b, c), q, res, ws, m) := en in
+  match method_class code with
+  | Some g => is_vdefault g && std_ok g a b c q res ws m
+  | None => false
+  end.
+Lemma C07_std_obl : forallb std_entry_ok std_methods = true.
+Proof. vm_cast_no_check (eq_refl true). Qed.
+
+(* the Bundesbank description of each of these codes is the standard scheme with these parameters *)
+Lemma std_spec : forall code a b c q res ws m, In (code, (a, b, c), q, res, ws, m) std_methods ->
+  forall ds, bb_accept code ds = Some (std a b c ws q m res ds).
+Proof.
+  intros code a b c q res ws m H ds. unfold std_methods in H.
+  repeat (destruct H as [H|H]; [injection H as <- <- <- <- <- <- <- <-; reflexivity|]). destruct H.
+Qed.
+
+Theorem C07_std : forall code a b c q res ws m, In (code, (a, b, c), q, res, ws, m) std_methods ->
+  exists g acc, method_class code = Some g /\
+    the_algos (tx "DE") (s2t code) = Some (german_algo nd_runs german_table account_code_length g acc) /\
+    forall account expected, forallb is_ascii_digit account = true -> List.length account = 10%nat ->
+      verdict (al_validate (german_algo nd_runs german_table account_code_length g acc) [account] expected)
+      = bb_accept code (digs account).
+Proof.
+  intros code a b c q res ws m Hin.
+  pose proof C07_std_obl as O. rewrite forallb_forall in O. specialize (O _ Hin). unfold std_entry_ok in O.
+  destruct (method_class code) as [g|] eqn:Eg; [|discriminate].
+  apply andb_true_iff in O as [Hv Hok].
+  destruct (method_algo code g Eg) as [acc Hal]. exists g, acc. split; [reflexivity|]. split; [exact Hal|].
+  intros account expected Hdig Hlen. cbn [al_validate german_algo]. unfold validate1.
+  unfold is_vdefault in Hv. destruct (g_validate g); try discriminate.
+  rewrite (std_spec code a b c q res ws m Hin). rewrite C07_len_obl.
+  exact (std_method nd_runs C07_nd_obl german_table g a b c q res ws m account Hok Hdig Hlen).
+Qed.
+
+
+(* ---- methods that wrap the template: 08 (small numbers are not checked), 09 (no check), 63 (leading zero required),
+        99 (a range of numbers is not checked) ------------------------------------------------------------------ *)
+Definition kv_eqb (x y : k_validate) : bool :=
+  match x, y with
+  | VDefault, VDefault | V08, V08 | V09, V09 | V16, V16 | V25, V25 | V63, V63 | V68, V68 | V76, V76 | V91, V91 | V99, V99 => true
+  | _, _ => false
+  end.
+Lemma kv_eqb_eq x y : kv_eqb x y = true -> x = y.
+Proof. destruct x, y; try discriminate; reflexivity. Qed.
+
+Definition wrap_ok (code : string) (kv : k_validate) (a b c : nat) (q : cross) (res : result) (ws : list Z) (m : Z)
+    (extra : gclass -> bool) : bool :=
+  match method_class code with
+  | Some g => kv_eqb (g_validate g) kv && std_ok g a b c q res ws m && extra g
+  | None => false
+  end.
+
+Lemma C07_wrap_obl :
+  wrap_ok "08" V08 1 9 10 CrossSum Minus10 w21 10 (fun g => Z.eqb (g_min_account g) 60000) = true
+  /\ wrap_ok "99" V99 1 9 10 Plain Minus11_06 w_2to7 11 (fun _ => true) = true
+  /\ wrap_ok "63" V63 2 7 8 CrossSum Minus10 w21 10 (fun _ => true) = true
+  /\ match method_class "09" with Some g => kv_eqb (g_validate g) V09 | None => false end = true.
+Proof. vm_cast_no_check (conj (eq_refl true) (conj (eq_refl true) (conj (eq_refl true) (eq_refl true)))). Qed.
+
+Ltac wrap_start O code :=
+  unfold wrap_ok in O; destruct (method_class code) as [g|] eqn:Eg; [|discriminate];
+  apply andb_true_iff in O as [O Hextra]; apply andb_true_iff in O as [Hv Hok]; apply kv_eqb_eq in Hv;
+  destruct (method_algo code g Eg) as [acc Hal]; exists g, acc; split; [reflexivity|]; split; [exact Hal|];
+  intros account expected Hdig Hlen; cbn [al_validate german_algo]; rewrite C07_len_obl.
+
+Theorem C07_m08 : exists g acc, method_class "08" = Some g /\
+  the_algos (tx "DE") (s2t "08") = Some (german_algo nd_runs german_table account_code_length g acc) /\
+  forall account expected, forallb is_ascii_digit account = true -> List.length account = 10%nat ->
+    verdict (al_validate (german_algo nd_runs german_table account_code_length g acc) [account] expected)
+    = bb_accept "08" (digs account).
+Proof.
+  destruct C07_wrap_obl as (O & _). wrap_start O "08"%string. apply Z.eqb_eq in Hextra.
+  rewrite (m08_method nd_runs C07_nd_obl german_table g _ _ _ _ _ _ _ account Hv Hok Hdig Hlen), Hextra. reflexivity.
+Qed.
+
+Theorem C07_m99 : exists g acc, method_class "99" = Some g /\
+  the_algos (tx "DE") (s2t "99") = Some (german_algo nd_runs german_table account_code_length g acc) /\
+  forall account expected, forallb is_ascii_digit account = true -> List.length account = 10%nat ->
+    verdict (al_validate (german_algo nd_runs german_table account_code_length g acc) [account] expected)
+    = bb_accept "99" (digs account).
+Proof.
+  destruct C07_wrap_obl as (_ & O & _). wrap_start O "99"%string.
+  rewrite (m99_method nd_runs C07_nd_obl german_table g _ _ _ _ _ _ _ account Hv Hok Hdig Hlen). reflexivity.
+Qed.
+
+Theorem C07_m63 : exists g acc, method_class "63" = Some g /\
+  the_algos (tx "DE") (s2t "63") = Some (german_algo nd_runs german_table account_code_length g acc) /\
+  forall account expected, forallb is_ascii_digit account = true -> List.length account = 10%nat ->
+    verdict (al_validate (german_algo nd_runs german_table account_code_length g acc) [account] expected)
+    = bb_accept "63" (digs account).
+Proof.
+  destruct C07_wrap_obl as (_ & _ & O & _). wrap_start O "63"%string.
+  rewrite (m63_method nd_runs C07_nd_obl german_table g _ _ _ _ _ _ _ account Hv Hok Hdig Hlen). reflexivity.
+Qed.
+
+Theorem C07_m09 : exists g acc, method_class "09" = Some g /\
+  the_algos (tx "DE") (s2t "09") = Some (german_algo nd_runs german_table account_code_length g acc) /\
+  forall account expected,
+    verdict (al_validate (german_algo nd_runs german_table account_code_length g acc) [account] expected)
+    = bb_accept "09" (digs account).
+Proof.
+  destruct C07_wrap_obl as (_ & _ & _ & O). destruct (method_class "09") as [g|] eqn:Eg; [|discriminate].
+  apply kv_eqb_eq in O. destruct (method_algo "09" g Eg) as [acc Hal]. exists g, acc. split; [reflexivity|]. split; [exact Hal|].
+  intros account expected. cbn [al_validate german_algo]. rewrite C07_len_obl.
+  rewrite (m09_method nd_runs german_table g account O). reflexivity.
+Qed.
+
+
+(* ---- 88, 26, 25, 16, 23, 91: the template with one extra rule each ------------------------------------------------ *)
+Definition kpos_eqb (x y : k_pos) : bool := match x, y with PStatic, PStatic | P88, P88 => true | _, _ => false end.
+Definition kadj_eqb (x y : k_adj) : bool := match x, y with AId, AId | A26, A26 => true | _, _ => false end.
+Lemma kpos_eqb_eq x y : kpos_eqb x y = true -> x = y. Proof. destruct x, y; try discriminate; reflexivity. Qed.
+Lemma kadj_eqb_eq x y : kadj_eqb x y = true -> x = y. Proof. destruct x, y; try discriminate; reflexivity. Qed.
+Definition pos3_eqb (p : Z * Z * Z) (a b c : Z) : bool := let '(x, y, z) := p in Z.eqb x a && Z.eqb y b && Z.eqb z c.
+Lemma pos3_eqb_eq p a b c : pos3_eqb p a b c = true -> p = (a, b, c).
+Proof.
+  destruct p as [[x y] z]. unfold pos3_eqb. intro H. apply andb_true_iff in H as [H H3]. apply andb_true_iff in H as [H1 H2].
+  apply Z.eqb_eq in H1, H2, H3. subst. reflexivity.
+Qed.
+
+Definition w88a : list Z := [2; 3; 4; 5; 6; 7; 8]%Z.
+Definition w26 : list Z := [2; 3; 4; 5; 6; 7; 2]%Z.
+Definition w25 : list Z := [2; 3; 4; 5; 6; 7; 8; 9]%Z.
+Definition p91 : list (nat * nat * nat * cross * list Z * Z) :=
+  [(1%nat, 6%nat, 7%nat, Plain, [2; 3; 4; 5; 6; 7], 11); (1%nat, 6%nat, 7%nat, Plain, [7; 6; 5; 4; 3; 2], 11);
+   (1%nat, 10%nat, 7%nat, Plain, [2; 3; 4; 0; 5; 6; 7; 8; 9; 10], 11); (1%nat, 6%nat, 7%nat, Plain, [2; 4; 8; 5; 10; 9], 11)]%Z.
+
+Definition chk88 (o : option gclass) : bool :=
+  match o with
+  | Some g => kv_eqb (g_validate g) VDefault && kpos_eqb (g_pos g) P88 && kadj_eqb (g_adj g) AId && pos3_eqb (g_positions g) 4 9 10
+              && core_ok g 3 9 10 Plain Minus11_06 w88a 11 && core_ok g 4 9 10 Plain Minus11_06 w_2to7 11
+  | None => false end.
+Definition chk26 (o : option gclass) : bool :=
+  match o with
+  | Some g => kv_eqb (g_validate g) VDefault && kpos_eqb (g_pos g) PStatic && kadj_eqb (g_adj g) A26 && pos3_eqb (g_positions g) 1 7 8
+              && core_ok g 1 7 8 Plain Minus11_06 w26 11
+  | None => false end.
+Definition chk_std (kv : k_validate) (a b c : nat) (ws : list Z) (o : option gclass) : bool :=
+  match o with Some g => kv_eqb (g_validate g) kv && std_ok g a b c Plain Minus11_06 ws 11 | None => false end.
+Definition chk91 (o o1 o2 o3 o4 : option gclass) : bool :=
+  match o, o1, o2, o3, o4 with
+  | Some g, Some v1, Some v2, Some v3, Some v4 =>
+    kv_eqb (g_validate g) V91
+    && forallb (fun vp => let '(v, (a, b, c, q, ws, m)) := vp in std_ok v a b c q Minus11_06 ws m)
+               (combine [v1; v2; v3; v4] p91)
+  | _, _, _, _, _ => false end.
+Lemma C07_extra_obl :
+  chk88 (method_class "88") = true /\ chk26 (method_class "26") = true
+  /\ chk_std V25 2 9 10 w25 (method_class "25") = true /\ chk_std V16 1 9 10 w_2to7 (method_class "16") = true
+  /\ chk_std V16 1 6 7 w_2to7 (method_class "23") = true
+  /\ chk91 (method_class "91") (variant german_table "Variant1") (variant german_table "Variant2")
+            (variant german_table "Variant3") (variant german_table "Variant4") = true.
+Proof.
+  vm_cast_no_check (conj (eq_refl true) (conj (eq_refl true) (conj (eq_refl true) (conj (eq_refl true)
+                      (conj (eq_refl true) (eq_refl true)))))).
+Qed.
+
+Ltac method_intro code :=
+  destruct (method_class code) as [g|] eqn:Eg; [|discriminate];
+  destruct (method_algo code g Eg) as [acc Hal]; exists g, acc; split; [reflexivity|]; split; [exact Hal|];
+  intros account expected Hdig Hlen; cbn [al_validate german_algo]; rewrite C07_len_obl.
+
+Definition method_statement (code : string) : Prop :=
+  exists g acc, method_class code = Some g /\
+    the_algos (tx "DE") (s2t code) = Some (german_algo nd_runs german_table account_code_length g acc) /\
+    forall account expected, forallb is_ascii_digit account = true -> List.length account = 10%nat ->
+      verdict (al_validate (german_algo nd_runs german_table account_code_length g acc) [account] expected)
+      = bb_accept code (digs account).
+
+Theorem C07_m88 : method_statement "88".
+Proof.
+  destruct C07_extra_obl as (O & _). unfold chk88 in O.
+  unfold method_statement. method_intro "88"%string.
+  repeat (apply andb_true_iff in O as [O ?]).
+  apply kv_eqb_eq in O.
+  repeat match goal with X : kpos_eqb _ _ = true |- _ => apply kpos_eqb_eq in X
+                       | X : kadj_eqb _ _ = true |- _ => apply kadj_eqb_eq in X
+                       | X : pos3_eqb _ _ _ _ = true |- _ => apply pos3_eqb_eq in X end.
+  rewrite (m88_method nd_runs C07_nd_obl german_table g Plain Minus11_06 w88a w_2to7 11 account) by assumption.
+  reflexivity.
+Qed.
+
+Theorem C07_m26 : method_statement "26".
+Proof.
+  destruct C07_extra_obl as (_ & O26 & _). unfold chk26 in O26.
+  unfold method_statement. method_intro "26"%string.
+  repeat (apply andb_true_iff in O26 as [O26 ?]).
+  apply kv_eqb_eq in O26.
+  repeat match goal with X : kpos_eqb _ _ = true |- _ => apply kpos_eqb_eq in X
+                       | X : kadj_eqb _ _ = true |- _ => apply kadj_eqb_eq in X
+                       | X : pos3_eqb _ _ _ _ = true |- _ => apply pos3_eqb_eq in X end.
+  rewrite (m26_method nd_runs C07_nd_obl german_table g 1 7 8 Plain Minus11_06 w26 11 account) by assumption.
+  reflexivity.
+Qed.
+
+Theorem C07_m25 : method_statement "25".
+Proof.
+  destruct C07_extra_obl as (_ & _ & O & _). unfold chk_std in O.
+  unfold method_statement. method_intro "25"%string.
+  apply andb_true_iff in O as [Hv Hok].
+  apply kv_eqb_eq in Hv.
+  rewrite (m25_method nd_runs C07_nd_obl german_table g 2 9 10 Plain w25 11 account Hv Hok Hdig Hlen). reflexivity.
+Qed.
+
+Theorem C07_m16 : method_statement "16".
+Proof.
+  destruct C07_extra_obl as (_ & _ & _ & O & _). unfold chk_std in O.
+  unfold method_statement. method_intro "16"%string.
+  apply andb_true_iff in O as [Hv Hok].
+  apply kv_eqb_eq in Hv.
+  rewrite (m16_method nd_runs C07_nd_obl german_table g 1 9 10 Plain w_2to7 11 account Hv Hok ltac:(lia) Hdig Hlen). reflexivity.
+Qed.
+
+Theorem C07_m23 : method_statement "23".
+Proof.
+  destruct C07_extra_obl as (_ & _ & _ & _ & O & _). unfold chk_std in O.
+  unfold method_statement. method_intro "23"%string.
+  apply andb_true_iff in O as [Hv Hok].
+  apply kv_eqb_eq in Hv.
+  rewrite (m16_method nd_runs C07_nd_obl german_table g 1 6 7 Plain w_2to7 11 account Hv Hok ltac:(lia) Hdig Hlen). reflexivity.
+Qed.
+
+Theorem C07_m91 : method_statement "91".
+Proof.
+  destruct C07_extra_obl as (_ & _ & _ & _ & _ & O). unfold chk91 in O.
+  unfold method_statement. method_intro "91"%string.
+  destruct (variant german_table "Variant1") as [v1|] eqn:E1; [|discriminate].
+  destruct (variant german_table "Variant2") as [v2|] eqn:E2; [|discriminate].
+  destruct (variant german_table "Variant3") as [v3|] eqn:E3; [|discriminate].
+  destruct (variant german_table "Variant4") as [v4|] eqn:E4; [|discriminate].
+  apply andb_true_iff in O as [Hv Hall].
+  apply kv_eqb_eq in Hv. unfold p91 in Hall. cbn [combine forallb] in Hall.
+  repeat (apply andb_true_iff in Hall as [? Hall]).
+  rewrite (m91_method nd_runs C07_nd_obl german_table g v1 v2 v3 v4
+             (1%nat, 6%nat, 7%nat, Plain, [2; 3; 4; 5; 6; 7], 11)%Z (1%nat, 6%nat, 7%nat, Plain, [7; 6; 5; 4; 3; 2], 11)%Z
+             (1%nat, 10%nat, 7%nat, Plain, [2; 3; 4; 0; 5; 6; 7; 8; 9; 10], 11)%Z (1%nat, 6%nat, 7%nat, Plain, [2; 4; 8; 5; 10; 9], 11)%Z
+             account Hv E1 E2 E3 E4); [reflexivity| |exact Hdig|exact Hlen].
+  cbv beta iota zeta in *.
+  repeat match goal with X : std_ok _ _ _ _ _ _ _ _ = true |- _ => rewrite X; clear X end. reflexivity.
+Qed.
+
 Print Assumptions C07_only_account.
+Print Assumptions C07_m88.
+Print Assumptions C07_m26.
+Print Assumptions C07_m25.
+Print Assumptions C07_m16.
+Print Assumptions C07_m23.
+Print Assumptions C07_m91.
+Print Assumptions C07_m08.
+Print Assumptions C07_m99.
+Print Assumptions C07_m63.
+Print Assumptions C07_m09.
+Print Assumptions C07_std.
+
+Example C07_ex : method_class "00" <> None /\ bb_accept "00" [0; 5; 3; 2; 0; 1; 3; 0; 0; 0]%Z = Some true.
+Proof. split; [vm_compute; discriminate|vm_compute; reflexivity]. Qed.
